@@ -230,7 +230,7 @@ Tri(r) == IF r = "?" THEN Err("EXCLUDED") ELSE Ok(VBool(r = "T"))
 TriNot(r) == IF r = "?" THEN Err("EXCLUDED") ELSE Ok(VBool(r = "F"))
 
 \* (a non-strict undefined is hashable; strict undefined comparisons are handled before)
-Hashable(v) == v.t \in {"int", "bool", "none", "str", "undef"} \/ (v.t = "list" /\ v.tup)
+Hashable(v) == v.t \in {"int", "bool", "none", "str", "undef"} \/ (v.t = "list" /\ (v.tup \/ IsRange(v)))
 
 RECURSIVE HasUndef(_)
 HasUndef(v) == v.t = "undef" \/ (v.t = "list" /\ \E i \in 1..Len(v.v) : HasUndef(v.v[i]))
